@@ -115,6 +115,52 @@ static RMat tri(const RVec& d, const RVec& e)
 }
 
 #ifndef C09_STUB_STEP
+#include <Spectra/LinAlg/UpperHessenbergSchur.h>
+// One real Francis double-shift step of UpperHessenbergSchur (compute_shift, init_francis_qr_step, perform_francis_qr_step with
+// Eigen's real makeHouseholder - one radical - and the rotation contract for the trailing 2-row block) on an unreduced 3x3 window
+// from an arbitrary state (symbolic Hessenberg T, rational orthogonal U): U' orthogonal, U'T'U'^T = U T U^T, T' upper Hessenberg
+// (the entries the code 'cleans up' must really be zero), the sum of exceptional shifts unchanged by an ordinary step.
+static void francis_step_case(int n)
+{
+    g_givens_contract = true;
+    g_givens_calls = 0;
+    sym::set_max_decisions(200);
+    RMat H = RMat::Zero(n, n);
+    for (int i = 0; i < n; i++)
+        for (int j = 0; j < n; j++)
+            if (i <= j + 1)
+                H(i, j) = sym::fresh("h_" + std::to_string(i) + "_" + std::to_string(j));
+    for (int i = 0; i + 1 < n; i++)
+        sym::assume(sym::ne(H(i + 1, i), Real(0)));  // unreduced window
+    UpperHessenbergSchur<Real> schur;
+    schur.m_n = n;
+    schur.m_T = H;
+    schur.m_U = frame(n);
+    RMat M0 = schur.m_U * H * schur.m_U.transpose();
+    Real ex_shift(0);
+    Eigen::Matrix<Real, 3, 1> shift_info, v = Eigen::Matrix<Real, 3, 1>::Zero();
+    const Eigen::Index il = n - 3, iu = n - 1;
+    Eigen::Index im = -1;
+    {
+        sym::DefScope ds(sym::Def::Assume);  // divisions by sub-diagonal entries (non-zero on an unreduced window) and by beta
+        schur.compute_shift(iu, 1, ex_shift, shift_info);
+        schur.init_francis_qr_step(il, iu, shift_info, im, v);
+        // near_0 = 0: "negligible" then means exactly zero, so that skipping a reflector / the rotation is exact; compute() passes
+        // max(norm * eps^2, min), with which the skipped transformations are correct to that threshold only (eps-level by design)
+        schur.perform_francis_qr_step(il, im, iu, v, Real(0));
+    }
+    sym::expect("ordinary step leaves the exceptional-shift sum alone", !ex_shift.is_sym() && ex_shift.value() == 0.0, "ex_shift changed");
+    const RMat& T1 = schur.m_T;
+    const RMat& U1 = schur.m_U;
+    for (int i = 0; i < n; i++)
+        for (int j = 0; j < n; j++)
+            if (i > j + 1)
+                sym::expect("T' upper Hessenberg(" + std::to_string(i) + "," + std::to_string(j) + ")", !T1(i, j).is_sym() && T1(i, j).value() == 0.0, "entry below the sub-diagonal is not 0");
+    symx::check_mat_eq("U'U'^T=I", RMat(U1 * U1.transpose()), RMat::Identity(n, n));
+    symx::check_mat_eq("U'T'U'^T=UTU^T", RMat(U1 * T1 * U1.transpose()), M0);
+    sym::witness("end");
+}
+
 // Eigen's real makeGivens against the contract the step cases use
 static void givens_case()
 {
@@ -295,6 +341,7 @@ int main(int argc, char** argv)
     std::vector<sym::Case> cases;
 #ifndef C09_STUB_STEP
     cases.push_back({"givens/real", givens_case});
+    cases.push_back({"francis-step/n3", []() { francis_step_case(3); }});
     cases.push_back({"trideig-step/n2/s0e1", []() { step_case(2, 0, 1); }});
     cases.push_back({"trideig-step/n3/s0e2", []() { step_case(3, 0, 2); }});
     cases.push_back({"trideig-step/n3/s0e1", []() { step_case(3, 0, 1); }});
